@@ -204,6 +204,60 @@ func closedFlagSetBefore(p *core.Prog, cl core.ChanOp) string {
 	if f := flagSetBeforeIn(cl.Fn, cl.Instr, cl.Base); f != "" {
 		return f
 	}
+	// the close happens inside a helper that gets the channel as an argument: the helper may set the flag itself through a
+	// pointer parameter (`markClosedAndClose(&x.isClosed, x.ch)`) before it closes
+	if ci, isCI := cl.Instr.(ssa.CallInstruction); isCI && cl.Via != "" {
+		if g := core.Callee(ci.Common()); g != nil && len(g.Blocks) > 0 {
+			res := ""
+			nClose := 0
+			core.Instrs(g, func(ins ssa.Instruction) {
+				cc, isC := ins.(ssa.CallInstruction)
+				if !isC || !core.IsBuiltin(cc.Common(), "close") {
+					return
+				}
+				if _, isPrm := core.Resolve(cc.Common().Args[0]).(*ssa.Parameter); !isPrm {
+					return
+				}
+				nClose++
+				found := ""
+				core.Instrs(g, func(i2 ssa.Instruction) {
+					if !core.InstrDominates(i2, ins) || i2 == ins {
+						return
+					}
+					var target ssa.Value
+					switch x := i2.(type) {
+					case *ssa.Store:
+						if isTrueConst(x.Val) {
+							target = x.Addr
+						}
+					case *ssa.Call:
+						if h := core.Callee(&x.Call); h != nil && core.FuncName(h) == "fpgo.AtomBool.Set" && len(x.Call.Args) == 2 && isTrueConst(x.Call.Args[1]) {
+							target = x.Call.Args[0]
+						}
+					}
+					prm, isPrm := target.(*ssa.Parameter)
+					if !isPrm {
+						return
+					}
+					for j, q := range g.Params {
+						if q == prm && j < len(ci.Common().Args) {
+							if fa, isFA := ci.Common().Args[j].(*ssa.FieldAddr); isFA && core.Path(fa.X) == cl.Base {
+								found = core.FieldName(fa.X.Type(), fa.Field)
+							}
+						}
+					}
+				})
+				if found == "" || res != "" && res != found {
+					res = "-"
+				} else {
+					res = found
+				}
+			})
+			if nClose > 0 && res != "" && res != "-" {
+				return res
+			}
+		}
+	}
 	{
 		// closure handed to a lock wrapper, or an unexported helper called (under the lock) by the closer proper
 		sites, complete := core.CallSites(p, cl.Fn)
@@ -411,7 +465,16 @@ func c15closedResult(p *core.Prog, f *ssa.Function, flag, sentinel string, depth
 		}
 		n := core.Normalize(core.Cond{V: iff.Cond, True: true})
 		var viaHelper ssa.Value
+		viaPredicate := false
 		if !flagRead(p, n.V, base, flag, 0) {
+			// a predicate helper of the receiver whose outcome implies the flag (`if !q.prepareTake() { return …closed }`)
+			if condFlag(p, core.Cond{V: iff.Cond, True: true}, base, flag, true, 0) {
+				n, viaPredicate = core.Cond{V: iff.Cond, True: true}, true
+			} else if condFlag(p, core.Cond{V: iff.Cond, True: false}, base, flag, true, 0) {
+				n, viaPredicate = core.Cond{V: iff.Cond, True: false}, true
+			}
+		}
+		if !viaPredicate && !flagRead(p, n.V, base, flag, 0) {
 			// `if err := q.prologue(); err != nil { return ..., err }`
 			cmp, isCmp := core.AsCmp(n)
 			if !isCmp || depth > 1 || sentinel == "" || sentinel == "0" || !core.IsNilConst(cmp.Y) || (cmp.Op != token.NEQ && cmp.Op != token.EQL) {
